@@ -18,8 +18,14 @@ pub struct Case {
 }
 
 /// Artefact holding everything the oracle needs to be re-run.
+thread_local! {
+    /// The initial solution of the warm-start case which the current thread is judging (recorded in its artefacts).
+    static INIT_SOLUTION: std::cell::RefCell<Option<Value>> = const { std::cell::RefCell::new(None) };
+}
+
 pub fn artefact(case_seed: u64, gp: &PragProblem, config: &Value, solution: Option<&Value>, extra: Value) -> Value {
     json!({
+        "init_solution": INIT_SOLUTION.with(|i| i.borrow().clone()),
         "case_seed": case_seed,
         "shape": gp.shape(),
         "problem": gp.problem,
@@ -34,10 +40,13 @@ pub fn artefact(case_seed: u64, gp: &PragProblem, config: &Value, solution: Opti
 pub fn report_issues(run: &Run, prop: &str, rep: &Report, case_seed: u64, gp: &PragProblem, config: &Value, solution: &Value) -> usize {
     let mut n = 0;
     let mut seen = std::collections::BTreeSet::new();
+    // issues of a warm-started solve say so in their signature
+    let suffix = if gp.has("warm-start") { "|warm-start" } else { "" };
     for is in rep.issues.iter().filter(|i| i.prop == prop) {
         n += 1;
-        if seen.insert(is.signature()) {
-            run.violation(&is.signature(), &clip(&is.detail, 400), artefact(case_seed, gp, config, Some(solution), json!({"rule": is.rule, "detail": is.detail})));
+        let signature = format!("{}{suffix}", is.signature());
+        if seen.insert(signature.clone()) {
+            run.violation(&signature, &clip(&is.detail, 400), artefact(case_seed, gp, config, Some(solution), json!({"rule": is.rule, "detail": is.detail})));
         }
     }
     n
@@ -181,7 +190,16 @@ pub enum CaseOutcome {
 }
 
 pub fn solve_and_replay(problem: Arc<Problem>, gp: &PragProblem, config: &Value) -> CaseOutcome {
-    match solve_with_config(problem, config) {
+    solve_and_replay_from(problem, gp, config, None)
+}
+
+/// `init`: a solution document of the same problem handed to the solver as initial solution (warm start).
+pub fn solve_and_replay_from(problem: Arc<Problem>, gp: &PragProblem, config: &Value, init: Option<&Value>) -> CaseOutcome {
+    let outcome = match init {
+        Some(init) => crate::solverun::solve_with_config_and_init(problem, config, init),
+        None => solve_with_config(problem, config),
+    };
+    match outcome {
         SolveOutcome::Ok(text) => {
             let solution: Value = match serde_json::from_str(&text) {
                 Ok(v) => v,
@@ -422,6 +440,20 @@ pub fn run_end_to_end(run: &Run, prop: &'static str) {
         };
         judge_case(run, prop, case_seed, &gp, &config, &shape, problem.clone(), "base");
 
+        // C01 / C02: warm start. "Whatever configuration produced the solution" includes an initial solution: a quick first solve
+        // gives a feasible solution (reloads, breaks and all), which is handed back as initial solution of the judged solve
+        // (vrp-cli solve --init-solution); what comes out must be as valid as the result of a cold start
+        if (prop == "C01" || prop == "C02") && !gp.has("clustering") && rng.chance(0.3) && run.has_time() {
+            let first_cfg = simple_config(rng.range_usize(2, 25), 1, 4);
+            if let CaseOutcome::Done(first) = solve_and_replay(problem.clone(), &gp, &first_cfg) {
+                if first.report.is_clean() && first.report.tours > 0 {
+                    let mut gp_w = gp.clone();
+                    gp_w.features.insert("warm-start".into());
+                    judge_case_from(run, prop, case_seed, &gp_w, &config, &shape, problem.clone(), "warm-start", Some(&first.solution));
+                }
+            }
+        }
+
         // C02: relations (locked jobs) on top of everything else, in particular on top of vicinity clustering, whose reader
         // must keep relation jobs out of the clusters. The relations come from a feasible solution of the same problem
         // WITHOUT clustering (relation jobs are never clustered, so they stay consistent when clustering is switched on).
@@ -525,7 +557,25 @@ pub fn run_end_to_end(run: &Run, prop: &'static str) {
 
 #[allow(clippy::too_many_arguments)]
 fn judge_case(run: &Run, prop: &'static str, case_seed: u64, gp: &PragProblem, config: &Value, shape: &ConfigShape, problem: Arc<Problem>, phase: &str) {
-    match solve_and_replay(problem, gp, config) {
+    judge_case_from(run, prop, case_seed, gp, config, shape, problem, phase, None)
+}
+
+struct ResetInit;
+impl Drop for ResetInit {
+    fn drop(&mut self) {
+        INIT_SOLUTION.with(|i| *i.borrow_mut() = None);
+    }
+}
+
+#[allow(clippy::too_many_arguments)]
+fn judge_case_from(run: &Run, prop: &'static str, case_seed: u64, gp: &PragProblem, config: &Value, shape: &ConfigShape, problem: Arc<Problem>, phase: &str, init: Option<&Value>) {
+    INIT_SOLUTION.with(|i| *i.borrow_mut() = init.cloned());
+    let outcome = solve_and_replay_from(problem, gp, config, init);
+    let _reset = ResetInit;
+    match outcome {
+        CaseOutcome::SolveErr(e) if e.starts_with("init-solution:") => {
+            run.inconclusive("warm start: the solver's own solution was not accepted as initial solution (C11's subject)");
+        }
         CaseOutcome::Done(res) => {
             run.eval();
             observe_report(run, &res.report);
